@@ -7,10 +7,10 @@
    "the same value of type B / Sy"): the table entry written for a fresh submission is the submitted
    buffer itself, and no later call replaces an entry that is set - in the streaming decoder, in the ML
    finish and in the Reed-Solomon API layer.
-   The LDPC of_finish_decoding status (OK iff complete afterwards) is a theorem of the ML model: see
-   Properties_C03.v (theorems ldpc_finish_...). *)
+   The LDPC of_finish_decoding status is OK iff all sources are available afterwards
+   (ldpc_finish_status_truthful, a clause of the session theorem of Properties_C03.v). *)
 From Coq Require Import Arith List Bool.
-From OFV Require Import ListAux RSApi RSApiProofs ITModel ITProofs MLModel StableTables.
+From OFV Require Import ListAux RSApi RSApiProofs LdpcEnc ITModel ITProofs MLModel MLCorollaries StableTables.
 Import ListNotations.
 
 Theorem rs_finish_status_truthful :
@@ -65,7 +65,24 @@ Proof.
   exact (ml_finish_tab_stable Sy sxor s0 fuel' perm s2 o Hf e x (run_tab_stable Sy sxor s0 H0 R0 N0 fuel h1 h2 s1 s2 R1 R2 e x Hx)).
 Qed.
 
+Theorem ldpc_finish_status_truthful :
+  forall (Sy : Type) (sxor : Sy -> Sy -> Sy) (s0 : Sy),
+  (forall a b c, sxor a (sxor b c) = sxor (sxor a b) c) -> (forall a b, sxor a b = sxor b a) ->
+  (forall a, sxor s0 a = a) -> (forall a, sxor a a = s0) ->
+  forall (H0 : list (list nat)) (R0 N0 : nat),
+  length H0 = R0 -> (forall i, i < R0 -> NoDup (nth i H0 [])) ->
+  (forall i c, i < R0 -> In c (nth i H0 []) -> c < N0) -> (forall i, i < R0 -> 2 <= length (nth i H0 [])) -> R0 <= N0 ->
+  (forall c, c < N0 -> exists i, i < R0 /\ In c (nth i H0 [])) -> stair R0 H0 -> (exists a : Sy, a <> s0) ->
+  forall cw : nat -> Sy, (forall i, i < R0 -> fold_right sxor s0 (map cw (nth i H0 [])) = s0) ->
+  forall (hist : list (nat * Sy)) (s : ITModel.st Sy) fuel perm (o : outcome Sy),
+  (forall ev, In ev hist -> fst ev < N0 /\ snd ev = cw (fst ev)) -> ITProofs.run Sy sxor s0 H0 R0 N0 (S N0) hist = Some s ->
+  N0 < fuel -> (forall c, c < R0 -> In c perm) -> (forall c, In c perm -> c < R0) ->
+  ml_finish sxor s0 fuel perm s = Some o ->
+  (o_ok o = true <-> forall c, R0 <= c < N0 -> known (o_st o) c = true).
+Proof. exact ml_session_status. Qed.
+
 Print Assumptions rs_finish_status_truthful.
+Print Assumptions ldpc_finish_status_truthful.
 Print Assumptions rs_table_entry_is_the_submitted_buffer.
 Print Assumptions ldpc_entries_survive_later_calls_and_finish.
 Print Assumptions ldpc_complete_query_truthful.
